@@ -15,11 +15,17 @@ from ..steps import check_wrapper, returned_name, run_block, split_while, workli
 REP = [D(1, 1, 1), D(0, 1, 1), D(1, 1, 2), D(1, 2, 2), D(0, 1, 2), D(2, 2, 2), D(2, 3, 3)]
 
 
-def build_tree(mb: ModelBuilder, spec: Any, name: str = "root", look_alike: bool = False) -> AObj:
+def build_tree(mb: ModelBuilder, spec: Any, name: str = "root", look_alike: bool = False, decorate: bool = False) -> AObj:
     """spec: list of relations; relation = (min, max, [child specs]); child spec = same list.
     look_alike: sibling names differ only in letter case or in a leading / trailing blank (a, A, "a ", " a", b, ...):
     legal, distinct names."""
-    f = mb.feature(name)
+    if decorate and name != "root":
+        # fields the structural definitions do not speak of vary from feature to feature: feature cardinalities with and
+        # without a zero lower bound, abstract flags - on mandatory children, group members and compound features alike
+        lo_, hi_, ab_ = ((0, 4, True), (2, 2, False), (0, 1, True), (1, -1, False), (1, 1, True))[sum(map(ord, name)) % 5]
+        f = mb.feature(name, is_abstract=ab_, card=(lo_, hi_))
+    else:
+        f = mb.feature(name)
     k = 0
     for i, (lo, hi, kids) in enumerate(spec):
         ch = []
@@ -30,7 +36,7 @@ def build_tree(mb: ModelBuilder, spec: Any, name: str = "root", look_alike: bool
             else:
                 cname = f"{name}.{i}.{j}"
             k += 1
-            ch.append(build_tree(mb, kid, cname, look_alike))
+            ch.append(build_tree(mb, kid, cname, look_alike, decorate))
         mb.relation(f, ch, lo, hi)
     return f
 
@@ -104,8 +110,11 @@ def edit_in_place(mb: ModelBuilder, m: AObj) -> None:
     mb.relation(em, [mb.feature("Extra.mandatory.child")], 1, 1)
 
 
-def tree_models(mb: ModelBuilder) -> dict[str, AObj]:
+def tree_models(mb: ModelBuilder, decorated: bool = False) -> dict[str, AObj]:
     ms = {k: mb.model(build_tree(mb, spec), []) for k, spec in TREES.items()}
+    if decorated:
+        for k in ("one-child", "chain3", "bushy", "two-groups"):
+            ms[f"{k}:decorated"] = mb.model(build_tree(mb, TREES[k], decorate=True), [])
     ms["look-alike-names"] = mb.model(build_tree(mb, LOOK_ALIKE, "root", True), [])
     # the same kind of tree built the way the FaMa XML reader builds it: empty relations filled child by child
     inc = ModelBuilder(mb.pm, style="incremental")
@@ -184,9 +193,11 @@ def check(pm: ProgramModel, ctx: Ctx) -> None:
         except AbsRaise as exc:
             return ("raise", exc.what)
 
-    for tname, spec in list(TREES.items()) + [("look-alike-names", LOOK_ALIKE)]:
+    family = list(TREES.items()) + [("look-alike-names", LOOK_ALIKE)] + \
+        [(f"{k_}:decorated", TREES[k_]) for k_ in ("one-child", "chain3", "bushy", "two-groups")]
+    for tname, spec in family:
         st = tree_stats(spec)
-        root = build_tree(mb, spec, "root", tname == "look-alike-names")
+        root = build_tree(mb, spec, "root", tname == "look-alike-names", tname.endswith(":decorated"))
         fm = mb.model(root, [])
         total_key = "root-only" if tname == "root-only" else "trees"
         # leaves
@@ -482,7 +493,7 @@ def variation_points_whole(pm: ProgramModel, ctx: Ctx, mb: ModelBuilder, fn: Any
     # whole function on the tree family
     from ..model import rich_model
     from ..roundtrip import features as all_features
-    models = tree_models(mb)
+    models = tree_models(mb, decorated=True)
     models["rich"] = rich_model(mb)
     work = []
     for name, m in models.items():
